@@ -3,6 +3,7 @@ import BornoModel.Parser
 import BornoModel.Props.C10
 import BornoModel.Lemmas.LexInsert
 import BornoModel.Lemmas.Interchange
+import BornoModel.Lemmas.Paren
 /-! # C18 — meaning is invariant under layout, digit script, synonyms, renaming, parentheses -/
 namespace Borno.Props.C18
 open Borno Lexer
@@ -188,5 +189,24 @@ theorem redundant_parentheses_anywhere_in_an_expression (P : Platform) (C : Ctx)
 example (P : Platform) : EvEq P (.call (.ident "f".toList 1) 1 [.literal (.num (F64.ofNat 1)) 1, .grouping (.ident "x".toList 1) 1])
     (.call (.ident "f".toList 1) 1 [.literal (.num (F64.ofNat 1)) 1, .ident "x".toList 1]) :=
   (redundant_parentheses_anywhere_in_an_expression P (.arg (.ident "f".toList 1) 1 [.literal (.num (F64.ofNat 1)) 1] .hole []) (.ident "x".toList 1) 1).1
+
+/-- (e) **redundant parentheses, whole programs**: let `prog'` be `prog` with parentheses inserted around any
+    sub-expressions anywhere in its top-level statements, blocks, branches, loop headers (initialiser, test,
+    increment) and loop bodies, at any depth — anywhere except inside the bodies of the functions it declares and
+    inside object-literal initialisers (`ParenSs`).  Then, from some step budget on, interpreting `prog'` ends in
+    exactly the state interpreting `prog` ends in: the same stdout, the same diagnostics in the same order, the same
+    flags, the same unread input — or the same abnormal end.  (Loops are handled by induction on the budget at which
+    the loop answers: `Lemmas/InterchangeLoop`.) -/
+theorem redundant_parentheses_whole_program (P : Platform) (prog prog' : List Stmt) (h : ParenSs prog prog')
+    (repl : Bool) (input : List Char) :
+    ∃ F0, ∀ F, F0 ≤ F → interpret P F prog repl input = interpret P F prog' repl input :=
+  interpret_paren P h repl input
+
+/-- the relation is inhabited by non-trivial pairs: `যতক্ষণ (i < 3) { দেখাও i; }` and `যতক্ষণ ((i) < (3)) { দেখাও (i); }` -/
+example : ParenSs
+    [.whileS (.binary (.ident "i".toList 1) .LESS 1 (.literal (.num (F64.ofNat 3)) 1)) (.block [.print (.ident "i".toList 1)])]
+    [.whileS (.binary (.grouping (.ident "i".toList 1) 1) .LESS 1 (.grouping (.literal (.num (F64.ofNat 3)) 1) 1))
+      (.block [.print (.grouping (.ident "i".toList 1) 1)])] :=
+  .cons (.whileS (.binary _ _ (.wrap 1 (.refl _)) (.wrap 1 (.refl _))) (.block (.cons (.print (.wrap 1 (.refl _))) .nil))) .nil
 
 end Borno.Props.C18
